@@ -1,21 +1,24 @@
 -------------------------- MODULE ApplyParams --------------------------
-(* apply_params (fdtd/initialization.py) on a 1-D lattice with one device, as a state machine.
+(* apply_params (fdtd/initialization.py) on a 1-D lattice with one or two devices, as a state machine.
 
-   State: base = permittivity of every cell after placement (what initial_inv_permittivities backs up for an
-   etched device), cur = DOUBLED permittivity of every cell now (the inverse-permittivity array, stated on
-   the permittivity side so that everything is an integer), and how many parameter sets were applied / the
-   last one.  One action:
-       Apply(p)   = one call apply_params(arrays, objects, {device: p}):
-                      restore the backup (if the scene keeps one), then overwrite the device's cells:
-                        continuous : blend of the two device materials            e0 + p*(e1 - e0)
-                        etched     : blend of what was there and the one material  bg + p*(e0 - bg)
+   State: base = permittivity of every cell after placement (what initial_inv_permittivities backs up),
+   devs = the scene's device list, cur = DOUBLED permittivity of every cell now (the inverse-permittivity
+   array, stated on the permittivity side so that everything is an integer), and how many parameter sets
+   were applied / the last one.  One action:
+       Apply(ps)  = one call apply_params(arrays, objects, {device: ps[device]}):
+                      restore the backup if the scene keeps one, then every device, in list order, overwrites
+                      its cells:
+                        continuous : blend of the two device materials              e0 + p*(e1 - e0)
+                        etched     : blend of what is in the cell and its material   bg + p*(e0 - bg)
                         discrete   : the selected material
                       every parameter voxel covers `vox` consecutive cells.
+   When does a scene keep a backup?  CONSTANT Backup
+       "any"   : iff at least one device etches          (the code: _init_arrays)
+       "all"   : iff every device etches                 (negative instance: a seeded regression)
+       "none"  : never                                   (negative instance)
    Property C18: device cells = the documented blend / material (DeviceCells, Range, DiscreteExact); cells
-   outside the device are never changed (OutsideUnchanged); after any sequence of parameter sets the arrays
-   are what applying only the last set to the placed scene gives (HistoryIndependent).
-   CONSTANT Backup = "initial" is the code; "none" (an etched device blends with whatever is there now)
-   is the negative instance.                                                                           *)
+   outside all devices never change (OutsideUnchanged); after any sequence of parameter sets the arrays
+   are what applying only the last set to the placed scene gives (HistoryIndependent).                 *)
 EXTENDS ApplyParamsDefs
 
 CONSTANTS N,          \* cells
@@ -23,10 +26,11 @@ CONSTANTS N,          \* cells
           MatEps,     \* permittivities available for device materials
           PVals,      \* doubled parameter values for continuous / etched devices (subset of {0, 1, 2})
           MaxHist,    \* parameter sets per behaviour
-          Backup      \* "initial" | "none"
+          Backup,     \* "any" | "all" | "none"
+          Scenes      \* subset of {"single", "pair"}
 
-VARIABLES base, dev, cur, hlen, last
-vars == << base, dev, cur, hlen, last >>
+VARIABLES base, devs, cur, hlen, last
+vars == << base, devs, cur, hlen, last >>
 
 Placements == { << 1, 3, 1 >>, << 0, N, 2 >>, << 1, 3, 2 >>, << 0, 2, 1 >> }     \* <<lo, hi, vox>>
 MaterialLists ==
@@ -34,55 +38,75 @@ MaterialLists ==
       etched     |-> { << Iso(a) >> : a \in MatEps },
       discrete   |-> { << Iso(a), Iso(b) >> : a, b \in MatEps } \cup { << Iso(a), Iso(b), Iso(c) >> : a, b, c \in MatEps } ]
 Ascending(ms) == \A k \in 1..(Len(ms) - 1) : ms[k][1] < ms[k + 1][1]
+Dev(pl, kind, ms) == [ lo |-> pl[1], hi |-> pl[2], vox |-> pl[3], kind |-> kind, mats |-> ms ]
+
+\* two devices, one etched and one plain (continuous), in both list orders:
+\* disjoint (one voxel each; two voxels + one voxel) and overlapping in cell 2
+PairPlacements == { << << 0, 2, 2 >>, << 2, 4, 2 >> >>, << << 0, 2, 1 >>, << 2, 4, 2 >> >>, << << 0, 3, 3 >>, << 2, 4, 2 >> >> }
+
+SingleScenes == { << Dev(pl, kind, ms) >> : pl \in Placements, kind \in {"continuous"}, ms \in { m \in MaterialLists["continuous"] : Ascending(m) } }
+                \cup { << Dev(pl, "etched", ms) >> : pl \in Placements, ms \in MaterialLists["etched"] }
+                \cup { << Dev(pl, "discrete", ms) >> : pl \in Placements, ms \in { m \in MaterialLists["discrete"] : Ascending(m) } }
+PairScenes ==
+    LET E(pl, m) == Dev(pl, "etched", m)
+        P(pl, m) == Dev(pl, "continuous", m)
+    IN  UNION { { << E(pp[1], me), P(pp[2], mp) >>, << P(pp[2], mp), E(pp[1], me) >> } :
+                  pp \in PairPlacements, me \in MaterialLists["etched"],
+                  mp \in { m \in MaterialLists["continuous"] : Ascending(m) } }
 
 Init == /\ base \in [ 1..N -> { Iso(e) : e \in BaseEps } ]
-        /\ \E pl \in Placements, kind \in {"continuous", "etched", "discrete"} :
-             \E ms \in MaterialLists[kind] :
-                /\ Ascending(ms)
-                /\ dev = [ lo |-> pl[1], hi |-> pl[2], vox |-> pl[3], kind |-> kind, mats |-> ms ]
+        /\ devs \in (IF "single" \in Scenes THEN SingleScenes ELSE {}) \cup (IF "pair" \in Scenes THEN PairScenes ELSE {})
         /\ cur = [ c \in 1..N |-> Dbl(base[c]) ]
         /\ hlen = 0 /\ last = << >>
 
-ParamSets == IF dev.kind = "discrete" THEN [ 1..NVoxels(dev) -> 0..(Len(dev.mats) - 1) ]
-             ELSE [ 1..NVoxels(dev) -> PVals ]
+\* an etched device that comes after an overlapping plain one blends with that device's output; to keep the
+\* doubled arithmetic exact the earlier device then only takes the parameters 0 and 1
+OverlappedByLaterEtch(k) == \E j \in (k + 1)..Len(devs) :
+                               devs[j].kind = "etched" /\ \E c \in 0..(N - 1) : InDevice(devs[k], c) /\ InDevice(devs[j], c)
+ParamVectors(k) == IF devs[k].kind = "discrete" THEN [ 1..NVoxels(devs[k]) -> 0..(Len(devs[k].mats) - 1) ]
+                   ELSE [ 1..NVoxels(devs[k]) -> (IF OverlappedByLaterEtch(k) THEN PVals \cap {0, 2} ELSE PVals) ]
+ParamSets == IF Len(devs) = 1 THEN { << p >> : p \in ParamVectors(1) }
+             ELSE { << p, q >> : p \in ParamVectors(1), q \in ParamVectors(2) }
 
-\* blend starting from a DOUBLED tensor (exact whenever it is even or v is even)
-BlendFrom2(c2, T1, v) == [ k \in 1..9 |-> (2 * c2[k] + v * (2 * T1[k] - c2[k])) \div 2 ]
+HasBackup == CASE Backup = "any"  -> \E k \in 1..Len(devs) : devs[k].kind = "etched"
+               [] Backup = "all"  -> \A k \in 1..Len(devs) : devs[k].kind = "etched"
+               [] OTHER           -> FALSE
 
-Apply(p) ==
+Apply(ps) ==
     /\ hlen < MaxHist
-    /\ LET start == IF Backup = "initial" /\ dev.kind = "etched"          \* the backup exists only with etching
-                    THEN [ c \in 1..N |-> Dbl(base[c]) ] ELSE cur
-       IN  cur' = [ c1 \in 1..N |->
-                      LET c == c1 - 1 IN
-                      IF ~InDevice(dev, c) THEN start[c1]
-                      ELSE LET v == p[VoxelOf(dev, c)] IN
-                           IF dev.kind = "continuous" THEN Blend2(dev.mats[1], dev.mats[2], v)
-                           ELSE IF dev.kind = "etched" THEN BlendFrom2(start[c1], dev.mats[1], v)
-                           ELSE Dbl(dev.mats[v + 1]) ]
-    /\ hlen' = hlen + 1 /\ last' = p
-    /\ UNCHANGED << base, dev >>
+    /\ LET start == IF HasBackup THEN [ c \in 1..N |-> Dbl(base[c]) ] ELSE cur
+       IN  cur' = WriteAll(start, devs, ps, 1)
+    /\ hlen' = hlen + 1 /\ last' = ps
+    /\ UNCHANGED << base, devs >>
 
-Next == (\E p \in ParamSets : Apply(p)) \/ (hlen = MaxHist /\ UNCHANGED vars)
+Next == (\E ps \in ParamSets : Apply(ps)) \/ (hlen = MaxHist /\ UNCHANGED vars)
 Spec == Init /\ [][Next]_vars
 
 \* ---------------------------------- properties ----------------------------------
-TypeOK == /\ hlen \in 0..MaxHist /\ Len(cur) = N /\ Len(base) = N
-          /\ dev.lo >= 0 /\ dev.hi <= N /\ (dev.hi - dev.lo) % dev.vox = 0
+TypeOK == /\ hlen \in 0..MaxHist /\ Len(cur) = N /\ Len(base) = N /\ Len(devs) \in 1..2
+          /\ \A k \in 1..Len(devs) : devs[k].lo >= 0 /\ devs[k].hi <= N /\ (devs[k].hi - devs[k].lo) % devs[k].vox = 0
 
-DeviceCells == hlen > 0 => \A c \in dev.lo..(dev.hi - 1) : cur[c + 1] = CellAfter(base, dev, last, c)
-Range == (hlen > 0 /\ dev.kind = "continuous") =>
-            \A c \in dev.lo..(dev.hi - 1) :
-               /\ cur[c + 1][1] >= 2 * MinOf({ dev.mats[1][1], dev.mats[2][1] })
-               /\ cur[c + 1][1] <= 2 * MaxOf({ dev.mats[1][1], dev.mats[2][1] })
-DiscreteExact == (hlen > 0 /\ dev.kind = "discrete") =>
-            \A c \in dev.lo..(dev.hi - 1) : \E k \in 1..Len(dev.mats) : cur[c + 1] = Dbl(dev.mats[k])
-OutsideUnchanged == \A c \in 0..(N - 1) : ~InDevice(dev, c) => cur[c + 1] = Dbl(base[c + 1])
-HistoryIndependent == hlen > 0 => cur = After(base, dev, last)
+\* cells of exactly one device: the documented blend of the placed background / the device materials
+DeviceCells == hlen > 0 =>
+    \A k \in 1..Len(devs) : \A c \in devs[k].lo..(devs[k].hi - 1) :
+        InOneDevice(devs, c) => cur[c + 1] = WriteDevice([ c1 \in 1..N |-> Dbl(base[c1]) ], devs[k], last[k])[c + 1]
+Range == hlen > 0 =>
+    \A k \in 1..Len(devs) : devs[k].kind = "continuous" =>
+        \A c \in devs[k].lo..(devs[k].hi - 1) : InOneDevice(devs, c) =>
+           /\ cur[c + 1][1] >= 2 * MinOf({ devs[k].mats[1][1], devs[k].mats[2][1] })
+           /\ cur[c + 1][1] <= 2 * MaxOf({ devs[k].mats[1][1], devs[k].mats[2][1] })
+DiscreteExact == hlen > 0 =>
+    \A k \in 1..Len(devs) : devs[k].kind = "discrete" =>
+        \A c \in devs[k].lo..(devs[k].hi - 1) : \E m \in 1..Len(devs[k].mats) : cur[c + 1] = Dbl(devs[k].mats[m])
+OutsideUnchanged == \A c \in 0..(N - 1) : ~InAnyDevice(devs, c) => cur[c + 1] = Dbl(base[c + 1])
+HistoryIndependent == hlen > 0 => cur = After(base, devs, last)
 
 \* ---------------------------------- bounded instances ----------------------------------
 Eps14  == {1, 4}
 Eps124 == {1, 2, 4}
 P012   == {0, 1, 2}
 P02    == {0, 2}
+Single == {"single"}
+Pair   == {"pair"}
+Both   == {"single", "pair"}
 =======================================================================
